@@ -74,8 +74,8 @@ def _sprinkle(rng, ir, p=0.15):
 
 
 def cases(seed, tier, shard, nshards):
-    corpus = [c for i, c in enumerate(G.corpus_irs()) if i % nshards == shard]
-    ci = i = 0
+    corpus = G.corpus_iter(shard, nshards)
+    i = 0
     # fixed part: every hostile part and every atom pool entry, alone and in each container
     fixed = []
     for v in G.SPECIAL_SYMS + G.PLAIN_SYMS:
@@ -111,9 +111,9 @@ def cases(seed, tier, shard, nshards):
         i += 1
         focus = G.FOCI[(i // 6) % len(G.FOCI)]
         if k == 0:
-            if ci < len(corpus):
-                yield {"kind": "corpus", "src": corpus[ci][0], "m": corpus[ci][1]}
-                ci += 1
+            item = next(corpus, None)
+            if item is not None:
+                yield {"kind": "corpus", "src": item[0], "m": item[1]}
             continue
         depth = rng.choice([1, 2, 3, 3, 4 if tier == "quick" else 5])
         if k == 1:
